@@ -126,7 +126,8 @@ def has_surrogate(evs):
 VARIANT = {"comment_eol_is_error": False, "legacy_10_legal_chars_ok": False, "legacy_11_c1_lsep_refs": False,
            "legacy_cdata_reopens_at_start": False,
            # regenerated into coq/GenSerLegacy.v by translator/gen_serlegacy.py; set by props/C04_legacy.run_part
-           "legacy_cdata_cr_referenced": False, "legacy_detects_lone_low_surrogate": False}
+           "legacy_cdata_cr_referenced": False, "legacy_detects_lone_low_surrogate": False,
+           "legacy_checks_comment_pi_names": False}
 
 
 def load_variant():
@@ -634,7 +635,7 @@ def evaluate(ctx, cases, impl, model):
             # no serializer may write a document for such a tree
             orc.append({"case": line, "what": "legacy FormatterToXML raised no error for a tree with an unpaired surrogate; its output: %s" % (
                             oldp[:200] if oldp.startswith("PARSEERR") else "parses to " + oldp[:200]),
-                        "known": "K-new-8" if not unpaired_in_text(evs) else
+                        "known": (None if VARIANT["legacy_checks_comment_pi_names"] else "K-new-8") if not unpaired_in_text(evs) else
                                  None if VARIANT["legacy_detects_lone_low_surrogate"] else "K-new-4"})
             # K-new-4: text, attribute value, CDATA (every encoding: raw under UTF-8/UTF-16/UTF-32, '&#56832;' otherwise);
             # K-new-8: the legacy serializer checks nothing in comments, PIs and names
